@@ -83,6 +83,7 @@ def cases(tier, seed):
                         out.append({"kind": "cgls", "shape": shape, "shift": shift, "mat": mat, "x0": x0, "m": m, "n": n,
                                     "cond": rg.choice([10, 100, 1000]), "tol": rg.choice([1e-6, 1e-8, 1e-10]),
                                     "shiftval": rg.choice([0.01, 0.3, 5.0]), "scale": rg.choice([1e-3, 1.0, 1.0, 30.0]), "rep": rep})
+                        _units(out[-1], rg)
     out.append({"kind": "cgls", "shape": "over", "shift": "zero", "mat": "dense", "x0": "solution", "m": 9, "n": 4,
                 "cond": 10, "tol": 1e-8, "shiftval": 0.3, "scale": 1.0, "rep": 0})
     # ---- CGLS / PCGLS with a tolerance below the attainable accuracy, started near the solution
@@ -103,6 +104,7 @@ def cases(tier, seed):
                                     "mat": rg.choice(["dense", "sparse"]), "x0": rg.choice(["zero", "random"]), "m": m, "n": n,
                                     "cond": rg.choice([10, 100, 1000]), "tol": rg.choice([1e-6, 1e-8, 1e-10]),
                                     "shiftval": rg.choice([0.01, 0.3, 5.0]), "scale": rg.choice([1e-3, 1.0, 1.0, 30.0]), "rep": rep})
+                        _units(out[-1], rg, precond=True)
     # ---- FISTA / ISTA
     fmax = 14 if quick else 30
     for rep in range(2 if quick else 6):
@@ -116,6 +118,7 @@ def cases(tier, seed):
                                         "m": m, "n": n, "cond": rg.choice([3, 10, 30]), "lam": rg.choice([0.01, 0.1, 1.0, 1.0, 10.0]),
                                         "box": rg.choice(["default", "scalar", "array"]), "x0": rg.choice(["zero", "random"]),
                                         "abstol": rg.choice([1e-7, 1e-9]), "rep": rep})
+                            _units(out[-1], rg)
     # ---- LM
     for rep in range(4 if quick else 14):
         for name in R.NLS_NAMES:
@@ -157,6 +160,26 @@ def cases(tier, seed):
                     out.append({"kind": "prox", "op": op, "shape": shape, "variant": variant, "rep": rep})
     return out
 
+SCALES = (-12, -8, -6, -4, -3, 0, 3, 6, 8)
+
+def _units(case, rg, precond=False):
+    """scale axis: operator and data (and preconditioner) in other units, jointly or separately, by 10^k"""
+    mode = rg.choice(["none", "joint", "joint", "A_only", "b_only"])
+    ka = kb = 0
+    if mode == "joint":
+        ka = kb = rg.choice(SCALES)
+    elif mode == "A_only":
+        ka = rg.choice((-6, -4, -3, 3, 6, 8))       # x scales like 10^-ka: keep ||x||*tol below 1
+    elif mode == "b_only":
+        kb = rg.choice(SCALES)
+    case["ka"], case["kb"] = ka, kb
+    if precond:
+        case["kp"] = rg.choice((-6, -3, 0, 0, 3, 6))
+    if kb - ka >= 3 and "tol" in case:
+        case["tol"] = 1e-10
+        case["scale"] = min(case["scale"], 1.0)
+        case["cond"] = min(case["cond"], 100)
+
 def crash_config(case):
     return {k: case[k] for k in ("kind", "solver", "method", "shape", "shift", "mat", "pkind", "path", "prox", "adaptive", "size",
                                  "problem", "sparse", "op", "variant") if k in case}
@@ -191,22 +214,29 @@ def _run_ne(case, ctx):
     rs = core.np_rng(ctx.seed, PROPERTY, core.canon(case))
     pc = case["kind"] == "pcgls"
     A, b = _problem(case, rs)
+    # units: operator, data (and preconditioner) scaled jointly or separately by powers of ten
+    sa, sb, sp_ = 10.0 ** int(case.get("ka", 0)), 10.0 ** int(case.get("kb", 0)), 10.0 ** int(case.get("kp", 0))
+    if sa != 1.0:
+        A = A * sa
+    b = b * sb
+    xunit = (sb / sa) * float(case["scale"])
     m, n = A.shape
     Ad = R.dense(A)
     sv = R.svals(A)
     shift = 0.0 if case["shift"] == "zero" else float(case["shiftval"]) * float(sv[0] ** 2)
     tol = float(case["tol"])
     maxit = 25 * max(m, n) + 400
-    P = R.preconditioner(rs, n, case["pkind"]) if pc else None
+    P = (R.preconditioner(rs, n, case["pkind"]) * sp_).tocsc() if pc else None
     Pd = None if P is None else P.toarray()
     if case["x0"] == "zero":
         x0 = np.zeros(n)
     elif case["x0"] == "solution":
         x0 = np.zeros(n); b = np.zeros(m)          # start == solution exactly (relative rule degenerates to 0 <= 0)
     else:
-        x0 = rs.standard_normal(n) * float(rs.uniform(0.3, 3.0)) * float(case["scale"])
-    x0b = x0 + rs.standard_normal(n) * 2.0 * float(case["scale"])
-    cfg0 = {"solver": "PCGLS" if pc else "CGLS", "shape": case["shape"], "shift": case["shift"], "mat": case["mat"]}
+        x0 = rs.standard_normal(n) * float(rs.uniform(0.3, 3.0)) * xunit
+    x0b = x0 + rs.standard_normal(n) * 2.0 * xunit
+    cfg0 = {"solver": "PCGLS" if pc else "CGLS", "shape": case["shape"], "shift": case["shift"], "mat": case["mat"],
+            "scaled": bool(sa != 1.0 or sb != 1.0 or sp_ != 1.0)}
     if pc:
         cfg0.update({"pkind": case["pkind"], "path": case["path"]})
     cat = "CGLS" if not pc else "PCGLS_%s_%s" % (case["path"], "sym" if case["pkind"] in ("diag", "spd") else "nonsym")
@@ -238,9 +268,11 @@ def _run_ne(case, ctx):
         g0 = R.ne_residual(Ad, b, start, shift, Pd)
         if int(k) >= maxit:
             # cond <= 1e3 and maxit = 25*max(m,n)+400: CG terminates long before in any correct implementation
-            if _norm(g) >= _norm(g0) > 0:
-                ctx.violation("no_progress", cfg, detail=f"m={m} n={n} cond={case['cond']}: after maxit={maxit} iterations the normal-equation "
-                                                         f"residual is {_norm(g):.3e}, at the start it was {_norm(g0):.3e}")
+            if _norm(g0) > 0:
+                ctx.violation("no_progress" if _norm(g) >= _norm(g0) else "no_convergence", cfg,
+                              detail=f"m={m} n={n} cond={case['cond']} tol={tol} units A*{sa:g} b*{sb:g}: after maxit={maxit} (= 25*max(m,n)+400) iterations the "
+                                     f"normal-equation residual is {_norm(g):.3e}, at the start it was {_norm(g0):.3e}; CG on a problem of this size "
+                                     f"and condition terminates within a few multiples of its dimension")
             ctx.inconclusive(f"{cfg0['solver']} reached maxit={maxit} (m={m}, n={n}, cond={case['cond']}, tol={tol})")
             ctx.count("not_converged")
             return False, None
@@ -285,7 +317,7 @@ def _run_ne(case, ctx):
     # operator given as matrix or as function: identical
     (xm, km, okm, ebm), (xc, kc, okc, ebc) = res["matrix"], res["callable"]
     ctx.count("operator_form_identity_checked")
-    if km != kc or xm.shape != xc.shape or _norm(xm - xc) > 1e-10 * (1 + _norm(xm)):
+    if km != kc or xm.shape != xc.shape or _norm(xm - xc) > 1e-10 * (_norm(xm) + _norm(x0)):
         ctx.violation("operator_form_mismatch", cfg0,
                       detail=f"matrix form: k={km}, callable form: k={kc}, ||dx|| = {_norm(xm-xc) if xm.shape==xc.shape else 'shape'}")
     bad = [f for f in log if f[0] not in (1, 2) or f[1] != ((n,) if f[0] == 1 else (m,))]
@@ -384,15 +416,26 @@ def _run_fista(case, ctx):
     maxit = 20000 if ctx.tier == "quick" else 60000
     x0 = np.zeros(n) if case["x0"] == "zero" else rs.standard_normal(n)
     cfg0 = {"solver": "FISTA" if case["adaptive"] else "ISTA", "prox": kind, "frac": case["frac"], "shape": case["shape"], "mat": case["mat"]}
+    # The solver gets the problem in other units: A_s = sa*A, b_s = sb*b, hence x_s = (sb/sa) x, t_s = t/sa^2,
+    # lam_s = sa*sb*lam, bounds and abstol scaled like x.  Everything is judged after mapping back to the unscaled units.
+    sa, sb = 10.0 ** int(case.get("ka", 0)), 10.0 ** int(case.get("kb", 0))
+    xs_ = sb / sa
+    scaled = (sa != 1.0 or sb != 1.0)
+    if scaled and kind == "box" and lo is None:
+        lo, hi = 0.0, 1.0                         # the default box is [0,1] in absolute units: pass it explicitly when scaled
+    A_s, Ad_s, b_s = (A * sa if scaled else A), Ad * sa, b * sb
+    t_s, lam_s, abstol_s, x0_s = float(case["frac"]) / float(R.svals(A_s)[0] ** 2) if scaled else t, lam * sa * sb, abstol * xs_, x0 * xs_
+    lo_s, hi_s = (None if lo is None else np.asarray(lo) * xs_), (None if hi is None else np.asarray(hi) * xs_)
+    cfg0["scaled"] = bool(scaled)
 
     def shipped(z, g):
         if kind == "l1":
-            return ProximalL1(z, lam * g)
+            return ProximalL1(z, lam_s * g)
         if kind == "nonneg":
             return ProjectNonnegative(z)
-        if lo is None:
+        if lo_s is None:
             return ProjectBox(z)
-        return ProjectBox(z, lo, hi)
+        return ProjectBox(z, lo_s, hi_s)
     plog = []
     def recording(z, g):
         zc = np.array(z, dtype=float, copy=True)
@@ -402,8 +445,8 @@ def _run_fista(case, ctx):
     alog = []
     def Acall(x, flag):
         alog.append((flag, np.array(x, dtype=float, copy=True)))
-        return A.T @ x if flag == 2 else A @ x
-    bare = ProximalL1 if (kind == "l1" and lam == 1.0) else shipped
+        return A_s.T @ x if flag == 2 else A_s @ x
+    bare = ProximalL1 if (kind == "l1" and lam_s == 1.0) else shipped
 
     def F(x):
         return R.objective(Ad, b, x, kind, lam, lo, hi)
@@ -413,6 +456,10 @@ def _run_fista(case, ctx):
         x = np.asarray(x, dtype=float)
         if x.shape != (n,) or not np.all(np.isfinite(x)):
             ctx.violation("solution_malformed", cfg, detail=f"shape {x.shape}"); return False
+        x = x / xs_                                # back to the unscaled units
+        tt = t_s * sa * sa
+        if abs(tt - t) > 1e-9 * t:
+            raise RuntimeError("harness: step size scaling inconsistent")
         if int(k) >= maxit:
             ctx.inconclusive(f"{cfg0['solver']} reached maxit={maxit} ({kind}, {case['shape']}, frac={case['frac']}, abstol={abstol})")
             ctx.count("not_converged")
@@ -465,13 +512,13 @@ def _run_fista(case, ctx):
                     return False
         return True
 
-    xm, km = FISTA(A, b.copy(), x0.copy(), bare, maxit=maxit, stepsize=t, abstol=abstol, adaptive=case["adaptive"]).solve()
+    xm, km = FISTA(A_s, b_s.copy(), x0_s.copy(), bare, maxit=maxit, stepsize=t_s, abstol=abstol_s, adaptive=case["adaptive"]).solve()
     okm = judge("matrix", xm, km)
-    xc, kc = FISTA(Acall, b.copy(), x0.copy(), recording, maxit=maxit, stepsize=t, abstol=abstol, adaptive=case["adaptive"]).solve()
+    xc, kc = FISTA(Acall, b_s.copy(), x0_s.copy(), recording, maxit=maxit, stepsize=t_s, abstol=abstol_s, adaptive=case["adaptive"]).solve()
     okc = judge("callable", xc, kc)
     xm, xc = np.asarray(xm, dtype=float), np.asarray(xc, dtype=float)
     ctx.count("operator_form_identity_checked")
-    if int(km) != int(kc) or xm.shape != xc.shape or _norm(xm - xc) > 1e-10 * (1 + _norm(xm)):
+    if int(km) != int(kc) or xm.shape != xc.shape or _norm(xm - xc) > 1e-10 * (xs_ + _norm(xm)):
         ctx.violation("operator_form_mismatch", cfg0, detail=f"matrix form k={km}, callable form k={kc}")
     # ---- trace of the callable run: every step is prox(y - t A^T(Ay-b), t)
     fw = [a for a in alog if a[0] == 1]
@@ -486,13 +533,13 @@ def _run_fista(case, ctx):
         for i in idx:
             z, g, p = plog[i]
             y = fw[i][1]
-            zref = y - t * (Ad.T @ (Ad @ y - b))
+            zref = y - t_s * (Ad_s.T @ (Ad_s @ y - b_s))
             nck += 1
-            if g != t:
-                ctx.violation("fista_step_trace", dict(cfg0, what="prox_parameter"), detail=f"step {i}: prox called with {g!r}, stepsize is {t!r}"); break
-            if not ctx.close(z, zref, rtol=1e-11, atol=1e-13):
+            if g != t_s:
+                ctx.violation("fista_step_trace", dict(cfg0, what="prox_parameter"), detail=f"step {i}: prox called with {g!r}, stepsize is {t_s!r}"); break
+            if not ctx.close(z, zref, rtol=1e-11, atol=1e-13 * xs_):
                 ctx.violation("fista_step_trace", dict(cfg0, what="gradient_step"), detail=f"step {i}: prox argument differs from y - t A^T(Ay-b) by {_norm(z-zref):.3e}"); break
-            if i == 0 and not np.array_equal(y, x0):
+            if i == 0 and not np.array_equal(y, x0_s):
                 ctx.violation("fista_step_trace", dict(cfg0, what="start"), detail="first gradient is not evaluated at x0"); break
             if (not case["adaptive"]) and i + 1 < len(plog) and not np.array_equal(fw[i + 1][1], p):
                 ctx.violation("fista_step_trace", dict(cfg0, what="ista_iterate"), detail=f"step {i+1} of ISTA does not start from the previous prox output"); break
